@@ -814,6 +814,10 @@ def expected_accept(fam, ptype, b, kind):
         fields = None
         if size == 4:
             fields = (('timestamp.Seconds', 'READu4'), ('timestamp.Nanoseconds', 0))
+        elif size == 12 and TS96_FIRST == 'seconds':
+            # the order the library's own writers use (C14 checks agreement of writer and reader, C06/C07 check the specification's order)
+            rd = ((8, 's'), (4, 'u'))
+            fields = (('timestamp.Seconds', 'READs8'), ('timestamp.Nanoseconds', 'READ?4'))
         elif size == 12:
             # spec, timestamp 96: 32-bit unsigned nanoseconds FIRST, then 64-bit signed seconds
             rd = ((4, 'u'), (8, 's'))
@@ -864,15 +868,24 @@ def match_accept(exp, path, kind):
     return True
 
 
-def check_accept_tables(prog, rep):
-    rep.rule('R7.1', 'reader accept tables = MessagePack spec: for every method and every first byte of the target family the reader '
-                     'consumes the header, reads exactly the payload/length field the spec assigns (width, signedness, embedded value) and '
-                     'delivers it; both reader copies', floor=2 * 700)
-    rep.rule('R7.4', 'every accepting path consumes exactly one value (cursor advanced by the full extent of the header+payload)', floor=2 * 700)
+TS96_FIRST = 'nanoseconds'
+
+
+def check_accept_tables(prog, rep, rule_accept='R7.1', rule_extent='R7.4', families=None, declare=True, value_types=True, ts96_first='nanoseconds'):
+    """families: restrict to these target families (None = all); other properties reuse the table under their own rule ids"""
+    if declare:
+        rep.rule('R7.1', 'reader accept tables = MessagePack spec: for every method and every first byte of the target family the reader '
+                         'consumes the header, reads exactly the payload/length field the spec assigns (width, signedness, embedded value) and '
+                         'delivers it; both reader copies', floor=2 * 700)
+        rep.rule('R7.4', 'every accepting path consumes exactly one value (cursor advanced by the full extent of the header+payload)', floor=2 * 700)
+    global TS96_FIRST
+    TS96_FIRST = ts96_first
     T = tables(prog)
     for kind in sorted(T):
         for (name, ptype), (f, fam, per) in sorted(T[kind].items(), key=lambda kv: str(kv[0])):
             if fam in ('type', 'skip', 'binbyte'):
+                continue
+            if families is not None and fam not in families:
                 continue
             rep.touch(f)
             bad = {}
@@ -883,27 +896,30 @@ def check_accept_tables(prog, rep):
                 ok = any(match_accept(exp, p, kind) for p in paths)
                 site = '%s|%s|%02x' % (kind, short_method(name, ptype), b)
                 if ok:
-                    rep.ok('R7.1', site, sample={'reader': kind, 'method': short_method(name, ptype), 'first_byte': '0x%02x' % b,
+                    rep.ok(rule_accept, site, sample={'reader': kind, 'method': short_method(name, ptype), 'first_byte': '0x%02x' % b,
                                                  'expected': {k: str(v) for k, v in exp.items()}} if b in (0xcd, 0xd6) else None)
-                    rep.ok('R7.4', site, nontrivial=False)
+                    rep.ok(rule_extent, site, nontrivial=False)
                 elif exp.get('end') is not None and any(match_accept(dict(exp, end=None), p, kind) for p in paths):
                     # header and payload are read and delivered as specified, only the cursor does not end behind the value
-                    rep.ok('R7.1', site, nontrivial=False)
+                    rep.ok(rule_accept, site, nontrivial=False)
                     ends = sorted(set(str(semantic(p)[1]) for p in paths if match_accept(dict(exp, end=None), p, kind)))
                     bad_end.setdefault((str(exp['end']), tuple(ends)), []).append(b)
                 else:
                     got = sorted(set(str(semantic(p)) for p in paths))
                     bad.setdefault(str(sorted((k, str(v)) for k, v in exp.items() if k != 'conv_src' and k != 'store')), []).append((b, got))
             for (want_end, ends), bs in bad_end.items():
-                rep.finding('R7.4', '%s|%s|%s|extent' % (kind, short_method(name, ptype), SPEC.family(bs[0])[0]), f.loc(),
+                rep.finding(rule_extent, '%s|%s|%s|extent' % (kind, short_method(name, ptype), SPEC.family(bs[0])[0]), f.loc(),
                             '%s reader %s decodes first byte(s) %s (%s) but leaves the cursor at offset %s instead of %s: the next value is read from the wrong place'
                             % (kind, short_method(name, ptype), fmt_bytes(bs), SPEC.family(bs[0])[0], ' / '.join(ends), want_end), func=f.id, count=len(bs))
             for expdesc, lst in bad.items():
                 bs = [b for b, _ in lst]
-                rep.finding('R7.1', '%s|%s|%s' % (kind, short_method(name, ptype), SPEC.family(bs[0])[0]), f.loc(),
+                rep.finding(rule_accept, '%s|%s|%s' % (kind, short_method(name, ptype), SPEC.family(bs[0])[0]), f.loc(),
                             '%s reader %s does not decode first byte(s) %s (%s) as the specification requires'
                             % (kind, short_method(name, ptype), fmt_bytes(bs), SPEC.family(bs[0])[0]),
                             {'expected': expdesc, 'observed_paths': lst[0][1][:6]}, func=f.id, count=len(bs))
+    TS96_FIRST = 'nanoseconds'
+    if not value_types:
+        return
     # ReadValueType: classification of every first byte
     vt = prog.enums.get('BitSerializer::MsgPack::Detail::ValueType')
     if vt is None:
@@ -922,11 +938,11 @@ def check_accept_tables(prog, rep):
             if want == 'Ext':
                 allowed.add(vt['items']['Timestamp'])
             if rets and rets <= allowed and vt['items'][want] in rets:
-                rep.ok('R7.1', '%s|ReadValueType|%02x' % (kind, b), nontrivial=False)
+                rep.ok(rule_accept, '%s|ReadValueType|%02x' % (kind, b), nontrivial=False)
             else:
                 bad.append((b, want, sorted(map(str, rets))))
         if bad:
-            rep.finding('R7.1', '%s|ReadValueType|classification' % kind, f.loc(),
+            rep.finding(rule_accept, '%s|ReadValueType|classification' % kind, f.loc(),
                         '%s reader ReadValueType classifies first byte(s) %s differently from the specification' % (kind, fmt_bytes([b for b, _, _ in bad])),
                         {'cases': [('0x%02x' % b, w, r) for b, w, r in bad[:12]]}, func=f.id, count=len(bad))
 
